@@ -22,7 +22,7 @@
 From Coq Require Import List String Arith Bool Lia.
 Import ListNotations.
 From MVGen Require Import JsGates_gen.
-From MV Require Import Js.PrintModel Js.PrintSpec Js.PrintGen Js.PrintProofs Js.PrintGroup Js.RewriteModel Js.RewriteSem Js.RewriteProofs Js.RewritePipe Js.RewritePipeProofs Js.StmtModel Js.StmtSem Js.StmtProofs Js.StmtPrint Js.StmtParse Js.StmtPrintProofs Js.NumLit Js.NumLitSpec Js.NumLitProofs Js.StrLit Js.StrLitSpec.
+From MV Require Import Js.PrintModel Js.PrintSpec Js.PrintGen Js.PrintProofs Js.PrintGroup Js.RewriteModel Js.RewriteSem Js.RewriteProofs Js.RewritePipe Js.RewritePipeProofs Js.StmtModel Js.StmtSem Js.StmtProofs Js.StmtPrint Js.StmtParse Js.StmtPrintProofs Js.NumLit Js.NumLitSpec Js.NumLitProofs Js.StrLit Js.StrLitSpec Js.StrLitProofs.
 From MV Require Base.MvBytes Num.NumModel Num.NumSpec.
 From Coq Require Import ZArith.
 Local Open Scope string_scope.
@@ -330,3 +330,39 @@ Example numeric_literals_nonvacuous :
   binary_number [48; 98; 49; 95; 48; 95; 49; 110]%Z = [53; 110]%Z.
 Proof. vm_compute. repeat split; reflexivity. Qed.
 
+(* ---------- LITERALS: string literals ----------
+   Js/StrLit.v restates minifyString + replaceEscapes of js/util.go as a left-to-right transducer (tied on 20,000 literals per
+   run through a verif hook; every escape form, both delimiters, allowTemplate on / off).  Js/StrLitSpec.v: the string value
+   of a literal body by ECMA-262 12.9.4 / 12.9.6 and Annex B.1.2 (escape sequences, line continuations, legacy octal
+   escapes in sloppy mode only, templates without substitutions: no `${`, no legacy escapes, CR / CRLF as LF), as UTF-8
+   bytes plus lone surrogate escapes; None when the body is not valid for its delimiter.
+   For EVERY valid string literal, either setting of allowTemplate, sloppy and strict mode: the written text is a literal
+   with a permitted delimiter (backtick only when templates are allowed), it is VALID for that delimiter (in strict mode
+   code too; as a template: no substitution opened, no octal escape), and it has the SAME string value.
+   While this statement was being validated on samples it exposed four defects of the real code, now repaired in /repo:
+   "\0\x31" -> "\01" and "\0001" -> "\01" (another character), "\n\n\08" -> a template containing \08 (SyntaxError),
+   "\x24{" -> `${` inside a template (K09); after the repairs the theorem holds with no hypothesis beyond validity. *)
+Theorem string_literals_keep_their_value : forall q body tmpl legacy v,
+  (q = c_dq \/ q = c_sq) -> MvBytes.bytes_ok body ->
+  decode legacy q body = Some v ->
+  exists q' body',
+    minify_string (literal q body) tmpl = literal q' body' /\
+    (q' = c_dq \/ q' = c_sq \/ (tmpl = true /\ q' = c_bt)) /\
+    decode (legacy && negb (Z.eqb q' c_bt)) q' body' = Some v.
+Proof. exact minify_string_value. Qed.
+Print Assumptions string_literals_keep_their_value.
+
+(* whatever delimiter is chosen, the rewritten body is valid even for strict mode code *)
+Theorem rewritten_escapes_are_strict_valid : forall q q' body legacy lg v,
+  (q = c_dq \/ q = c_sq) -> (q' = c_dq \/ q' = c_sq \/ q' = c_bt) ->
+  decode legacy q body = Some v ->
+  exists body', replace_escapes (literal q' body) q' = literal q' body' /\ decode lg q' body' = Some v.
+Proof. exact replace_escapes_value. Qed.
+Print Assumptions rewritten_escapes_are_strict_valid.
+
+(* non-vacuity and the repaired shapes on the model: "\0\x31" keeps NUL then 1; "\n\n\x24{" as a template escapes the $ *)
+Example string_literals_nonvacuous :
+  (decode true 34 [92; 48; 92; 120; 51; 49] = Some [UByte 0; UByte 49] /\
+   minify_string [34; 92; 48; 92; 120; 51; 49; 34] false = [34; 92; 120; 48; 48; 49; 34] /\
+   minify_string [34; 92; 110; 92; 110; 92; 120; 50; 52; 123; 34] true = [96; 10; 10; 92; 36; 123; 96])%Z.
+Proof. vm_compute. repeat split; reflexivity. Qed.
